@@ -112,6 +112,41 @@ def run(ids, jobs):
     sh("git -C /repo worktree prune")
 
 
+def retest(ids):
+    """the repository's test suite alone, for trials in which it failed (it has a rare out-of-memory flake under machine
+    load): scratch worktree of /repo HEAD, apply the patch, go test up to three times; only the test field is updated"""
+    ids = ids or [d for d in sorted(os.listdir(OUT)) if os.path.isdir(os.path.join(OUT, d))
+                  and json.load(open(os.path.join(OUT, d, "meta.json"))).get("confirmed_by_me", {}).get("repository_tests_pass_with_change") is False]
+    for sid in ids:
+        d = os.path.join(OUT, sid)
+        wt = "/tmp/seedwt-" + sid
+        sh("git -C /repo worktree remove --force %s; rm -rf %s" % (wt, wt))
+        sh("git -C /repo worktree add --detach %s HEAD" % wt)
+        try:
+            rc, out = sh("git apply %s" % os.path.join(d, "patch.diff"), cwd=wt)
+            if rc != 0:
+                print(sid, "does not apply")
+                continue
+            ok, tails = False, []
+            for _ in range(3):
+                rc, out = sh("go build ./... && go test -vet=off -count=1 ./... 2>&1 | tail -5", cwd=wt, timeout=1200)
+                tails.append(out[-200:])
+                if rc == 0 and "FAIL" not in out:
+                    ok = True
+                    break
+            mp = os.path.join(d, "meta.json")
+            meta = json.load(open(mp))
+            meta["confirmed_by_me"]["repository_tests_pass_with_change"] = ok
+            meta["confirmed_by_me"]["tests_rerun"] = "go test re-run alone (%d attempt(s)) after a failure during a trial at high machine load" % len(tails)
+            if not ok:
+                meta["confirmed_by_me"]["test_output_tail"] = tails[-1]
+            json.dump(meta, open(mp, "w"), indent=1)
+            print(sid, "tests", ok, flush=True)
+        finally:
+            sh("git -C /repo worktree remove --force %s; rm -rf %s" % (wt, wt))
+    sh("git -C /repo worktree prune")
+
+
 def table():
     print("| id | change | needs | confirmed (tests pass / demo fails) | detected by |")
     print("|---|---|---|---|---|")
@@ -140,5 +175,7 @@ if __name__ == "__main__":
             jobs = int(args[1])
             args = args[2:]
         run(args, jobs)
+    elif cmd == "retest":
+        retest(sys.argv[2:])
     elif cmd == "table":
         table()
